@@ -81,7 +81,7 @@ def used_fids(sc):
     return used
 
 
-def shrink(sc, run, want, max_runs=600):
+def shrink(sc, run, want, max_runs=600, prop=None):
     """``run(sc) -> result``; ``want`` = (oracle, key) that must persist."""
     budget = [max_runs]
     best = copy.deepcopy(sc)
@@ -94,7 +94,7 @@ def shrink(sc, run, want, max_runs=600):
             res = run(cand)
         except Exception:
             return False
-        return vkey(res) == want
+        return vkey(res, prop) == want
 
     changed = True
     while changed and budget[0] > 0:
@@ -103,6 +103,13 @@ def shrink(sc, run, want, max_runs=600):
         i = len(best['steps']) - 1
         while i >= 0 and len(best['steps']) > 1:
             cand = copy.deepcopy(best)
+            fs = cand.get('fault_step')
+            if fs is not None:
+                if i == fs:
+                    i -= 1
+                    continue
+                if i < fs:
+                    cand['fault_step'] = fs - 1
             del cand['steps'][i]
             if ok(cand):
                 best = cand
